@@ -172,7 +172,7 @@ impl Sim {
                 let cid: String = r.get(2)?;
                 let val: klukai_types::api::SqliteValue = r.get(3)?;
                 let site: ActorId = r.get(6)?;
-                cells.push(json!({"t": table, "key": pk_to_int(&pk), "cid": cid, "val": val_num(&val), "cv": r.get::<_, i64>(4)?, "dbv": r.get::<_, i64>(5)?, "site": self.idx_of(&site), "cl": r.get::<_, i64>(7)?, "seq": r.get::<_, i64>(8)?}));
+                cells.push(json!({"t": table, "key": pk_to_int(&pk), "cid": cid, "val": val_num(&val), "raw": val_raw(&val), "cv": r.get::<_, i64>(4)?, "dbv": r.get::<_, i64>(5)?, "site": self.idx_of(&site), "cl": r.get::<_, i64>(7)?, "seq": r.get::<_, i64>(8)?}));
             }
         }
         cells.sort_by_key(|c| (c["t"].as_str().unwrap_or("").to_string(), c["key"].as_i64(), c["cid"].as_str().unwrap_or("").to_string()));
@@ -183,7 +183,7 @@ impl Sim {
             let mut rows = st.query([])?;
             while let Some(r) = rows.next()? {
                 let t: String = r.get(1)?;
-                rows_t.push(json!([r.get::<_, i64>(0)?, t.parse::<i64>().unwrap_or(-1)]));
+                rows_t.push(json!([r.get::<_, i64>(0)?, t.parse::<i64>().unwrap_or(-1), t]));
             }
         }
         let mut book = vec![];
@@ -292,7 +292,7 @@ impl Sim {
             created.push(self.push_msg(cv));
         }
         let post = self.project(i).await?;
-        self.emit(json!({"op": "tx", "keys": keys, "fail": fail}), i, post, json!({"ok": ok, "version": version, "status": status.as_u16(), "created": created}));
+        self.emit(json!({"op": "tx", "keys": keys, "fail": fail}), i, post, json!({"ok": ok, "version": version.map(|v| v as u64).unwrap_or(0), "status": status.as_u16(), "created": created}));
         Ok(())
     }
 
@@ -311,7 +311,7 @@ impl Sim {
     pub async fn op_deliver(&mut self, i: usize, batch: &[usize]) -> eyre::Result<()> {
         let msgs: Vec<ChangeV1> = batch.iter().map(|m| self.net[m - 1].cv.clone()).collect();
         let res = process_multiple_changes(self.nodes[i].agent.clone(), self.nodes[i].bookie.clone(), with_src(msgs), Duration::from_secs(30)).await;
-        let err = res.err().map(|e| e.to_string());
+        let err = res.err().map(|e| e.to_string()).unwrap_or_default();
         self.settle_triggers(i).await?;
         if self.nodes[i].auto {
             self.settle_auto(i).await?;
@@ -325,10 +325,10 @@ impl Sim {
         self.drain_triggers(i);
         self.nodes[i].pend_apply.remove(&(a, v));
         let res = process_fully_buffered_changes(&self.nodes[i].agent, &self.nodes[i].bookie, self.ids[a - 1], CrsqlDbVersion(v), Duration::from_secs(30)).await;
-        let err = res.as_ref().err().map(|e| e.to_string());
+        let err = res.as_ref().err().map(|e| e.to_string()).unwrap_or_default();
         sleep_ms(2).await;
         let post = self.project(i).await?;
-        self.emit(json!({"op": "apply", "a": a, "v": v}), i, post, json!({"err": err, "applied": res.ok()}));
+        self.emit(json!({"op": "apply", "a": a, "v": v}), i, post, json!({"err": err, "applied": res.ok().unwrap_or(false)}));
         Ok(())
     }
 
@@ -342,7 +342,7 @@ impl Sim {
             tx.send((actor, CrsqlDbVersion(v)..=CrsqlDbVersion(v))).await.map_err(|e| eyre::eyre!("{e}"))?;
         }
         let deadline = Instant::now() + Duration::from_secs(20);
-        let mut err = None;
+        let mut err = "";
         loop {
             match tokio::time::timeout(Duration::from_millis(200), self.events.recv()).await {
                 Ok(Some(ev)) => {
@@ -352,7 +352,7 @@ impl Sim {
                 }
                 _ => {
                     if Instant::now() > deadline {
-                        err = Some("clear_buffered_meta round did not complete");
+                        err = "clear_buffered_meta round did not complete";
                         break;
                     }
                 }
@@ -470,6 +470,13 @@ impl Sim {
     }
 }
 
+pub fn val_raw(v: &klukai_types::api::SqliteValue) -> String {
+    match v {
+        klukai_types::api::SqliteValue::Text(t) => format!("text:{t}"),
+        other => format!("{other:?}"),
+    }
+}
+
 pub fn val_num(v: &klukai_types::api::SqliteValue) -> i64 {
     match v {
         klukai_types::api::SqliteValue::Text(t) => t.parse::<i64>().unwrap_or(-1),
@@ -499,13 +506,13 @@ pub async fn run_walk(seed: u64, nodes: usize, nkeys: i64, steps: usize, with_re
     let mut own_counts = vec![0u64; nodes];
     for _ in 0..steps {
         let roll: u32 = rng.random_range(0..100);
-        if roll < 22 {
+        if roll < 18 {
             // local transaction (sometimes failing / no-op)
             let i = rng.random_range(0..nodes);
             if own_counts[i] >= max_tx_per_node || sim.nodes[i].auto {
                 continue;
             }
-            let nk = rng.random_range(1..=std::cmp::min(3, nkeys) as usize);
+            let nk = std::cmp::max(rng.random_range(1..=std::cmp::min(3, nkeys) as usize), rng.random_range(1..=std::cmp::min(3, nkeys) as usize));
             let mut keys: Vec<i64> = (1..=nkeys).collect();
             for j in 0..keys.len() {
                 let k = rng.random_range(j..keys.len());
@@ -525,7 +532,7 @@ pub async fn run_walk(seed: u64, nodes: usize, nkeys: i64, steps: usize, with_re
                 own_counts[i] += 1;
             }
             sim.op_tx(i, &keys, fail).await?;
-        } else if roll < 34 {
+        } else if roll < 36 {
             // network re-chunking
             let fulls: Vec<usize> = sim.net.iter().filter(|m| m.abs["k"] == "full" && m.abs["hi"].as_u64() > m.abs["lo"].as_u64()).map(|m| m.id).collect();
             if fulls.is_empty() {
@@ -538,8 +545,13 @@ pub async fn run_walk(seed: u64, nodes: usize, nkeys: i64, steps: usize, with_re
             if a == lo && b == hi {
                 continue;
             }
+            // honest chunkers never emit a sub-range chunk without changes
+            let has_change = sim.net[m - 1].abs["chs"].as_array().map(|c| c.iter().any(|x| x["seq"].as_u64().map(|s| s >= a && s <= b).unwrap_or(false))).unwrap_or(false);
+            if !has_change {
+                continue;
+            }
             sim.op_cut(m, a, b).await?;
-        } else if roll < 66 {
+        } else if roll < 68 {
             // delivery of 1..3 messages (any order, duplicates allowed) to a node
             if sim.net.is_empty() {
                 continue;
@@ -547,8 +559,9 @@ pub async fn run_walk(seed: u64, nodes: usize, nkeys: i64, steps: usize, with_re
             let i = rng.random_range(0..nodes);
             let n = rng.random_range(1..=3usize);
             let mut batch = vec![];
+            let partials: Vec<usize> = sim.net.iter().enumerate().filter(|(_, m)| m.abs["k"] == "full" && (m.abs["lo"].as_u64() != Some(0) || m.abs["hi"] != m.abs["last"])).map(|(i, _)| i).collect();
             for _ in 0..n {
-                let m = rng.random_range(0..sim.net.len());
+                let m = if !partials.is_empty() && rng.random_range(0..100) < 55 { partials[rng.random_range(0..partials.len())] } else { rng.random_range(0..sim.net.len()) };
                 if sim.net[m].abs["a"].as_u64() == Some(i as u64 + 1) {
                     continue; // a node does not ingest its own changes (handle_changes filters them)
                 }
@@ -558,14 +571,14 @@ pub async fn run_walk(seed: u64, nodes: usize, nkeys: i64, steps: usize, with_re
                 continue;
             }
             sim.op_deliver(i, &batch).await?;
-        } else if roll < 76 {
+        } else if roll < 78 {
             let cands: Vec<(usize, (usize, u64))> = sim.nodes.iter().enumerate().flat_map(|(i, n)| n.pend_apply.iter().map(move |p| (i, *p))).collect();
             if cands.is_empty() {
                 continue;
             }
             let (i, (a, v)) = cands[rng.random_range(0..cands.len())];
             sim.op_apply(i, a, v).await?;
-        } else if roll < 82 {
+        } else if roll < 83 {
             let cands: Vec<(usize, (usize, u64))> = sim.nodes.iter().enumerate().flat_map(|(i, n)| n.pend_clear.iter().map(move |p| (i, *p))).collect();
             if cands.is_empty() {
                 continue;
@@ -642,6 +655,99 @@ pub async fn run_walk(seed: u64, nodes: usize, nkeys: i64, steps: usize, with_re
     let mut f = std::io::BufWriter::new(std::fs::File::create(out_path)?);
     use std::io::Write;
     writeln!(f, "{}", json!({"i": 0, "op": {"op": "init", "nodes": nodes, "keys": nkeys, "seed": seed}, "n": 0}))?;
+    for ev in sim.out.iter() {
+        writeln!(f, "{}", ev)?;
+    }
+    f.flush()?;
+    Ok(())
+}
+
+/// find a message of the network by its abstract content
+fn find_msg(sim: &Sim, m: &Value) -> Option<usize> {
+    sim.net
+        .iter()
+        .find(|x| {
+            x.abs["k"] == m["k"]
+                && x.abs["a"] == m["a"]
+                && x.abs["lo"] == m["lo"]
+                && x.abs["hi"] == m["hi"]
+                && (m["k"] == "empty" || (x.abs["v"] == m["v"] && x.abs["last"] == m["last"]))
+        })
+        .map(|x| x.id)
+}
+
+fn set_to_runs(v: &Value) -> Vec<(u64, u64)> {
+    let mut xs: Vec<u64> = v.as_array().map(|a| a.iter().filter_map(|x| x.as_u64()).collect()).unwrap_or_default();
+    xs.sort();
+    let mut out: Vec<(u64, u64)> = vec![];
+    for x in xs {
+        match out.last_mut() {
+            Some(l) if l.1 + 1 == x => l.1 = x,
+            _ => out.push((x, x)),
+        }
+    }
+    out
+}
+
+/// execute a behaviour of Replication.tla (a TLC counter-example or a kept regression) on real agents
+pub async fn run_replay(input: &str, out_path: &str) -> eyre::Result<()> {
+    let spec: Value = serde_json::from_str(&std::fs::read_to_string(input)?)?;
+    let nodes = spec["nodes"].as_u64().unwrap_or(2) as usize;
+    let nkeys = spec["keys"].as_i64().unwrap_or(2);
+    let mut sim = Sim::new(nodes, nkeys).await?;
+    let mut skipped = vec![];
+    for (idx, act) in spec["actions"].as_array().cloned().unwrap_or_default().iter().enumerate() {
+        let name = act[0].as_str().unwrap_or("");
+        let c = &act[1];
+        match name {
+            "LocalTx" => {
+                let keys: Vec<i64> = c["ks"].as_array().unwrap().iter().map(|k| k.as_i64().unwrap()).collect();
+                sim.op_tx(c["n"].as_u64().unwrap() as usize - 1, &keys, "").await?;
+            }
+            "Cut" => match find_msg(&sim, &c["m"]) {
+                Some(id) => sim.op_cut(id, c["lo"].as_u64().unwrap(), c["hi"].as_u64().unwrap()).await?,
+                None => skipped.push(idx),
+            },
+            "Deliver" => {
+                let ids: Vec<usize> = c["ms"].as_array().unwrap().iter().filter_map(|m| find_msg(&sim, m)).collect();
+                if ids.len() != c["ms"].as_array().unwrap().len() {
+                    skipped.push(idx);
+                } else {
+                    sim.op_deliver(c["n"].as_u64().unwrap() as usize - 1, &ids).await?;
+                }
+            }
+            "ApplyBuffered" | "ClearMeta" => {
+                let (n, a, v) = (c["n"].as_u64().unwrap() as usize - 1, c["a"].as_u64().unwrap() as usize, c["v"].as_u64().unwrap());
+                if sim.nodes[n].auto {
+                    skipped.push(idx);
+                } else if name == "ApplyBuffered" {
+                    sim.op_apply(n, a, v).await?;
+                } else {
+                    sim.op_clear(n, a, v).await?;
+                }
+            }
+            "SyncServe" => {
+                let (s, cl, a) = (c["s"].as_u64().unwrap() as usize - 1, c["c"].as_u64().unwrap() as usize - 1, c["a"].as_u64().unwrap() as usize);
+                let need = &c["need"];
+                let n = if need["k"] == "full" {
+                    SyncNeedV1::Full { versions: CrsqlDbVersion(need["lo"].as_u64().unwrap())..=CrsqlDbVersion(need["hi"].as_u64().unwrap()) }
+                } else {
+                    SyncNeedV1::Partial { version: CrsqlDbVersion(need["v"].as_u64().unwrap()), seqs: set_to_runs(&need["seqs"]).into_iter().map(|(x, y)| CrsqlSeq(x)..=CrsqlSeq(y)).collect() }
+                };
+                let actor = sim.ids[a - 1];
+                sim.op_serve(s, cl, actor, n).await?;
+            }
+            "Restart" => sim.op_restart(c["n"].as_u64().unwrap() as usize - 1).await?,
+            _ => skipped.push(idx),
+        }
+    }
+    let mut finals = vec![];
+    for i in 0..nodes {
+        finals.push(sim.project(i).await?);
+    }
+    let mut f = std::io::BufWriter::new(std::fs::File::create(out_path)?);
+    use std::io::Write;
+    writeln!(f, "{}", json!({"i": 0, "op": {"op": "init", "nodes": nodes, "keys": nkeys, "seed": 0, "skipped": skipped}, "n": 0}))?;
     for ev in sim.out.iter() {
         writeln!(f, "{}", ev)?;
     }
